@@ -36,6 +36,7 @@ def run_batch(cases, evaluator, m, t, seed=0, no_prss=False, sec_param=30, ctxar
     """evaluator(mpc, case, index, ctxarg) -> awaitable giving a JSON-able result.
     Returns (status, results per party, errors)."""
     w = World(m, t, seed=seed, no_prss=no_prss, sec_param=sec_param, options=options)
+    w.keep_trace = False        # millions of steps: the schedule trace is not needed for batches
     try:
         w.spawn(_batch, cases, evaluator, ctxarg, chunk, case_timeout)
         # (tasks of a case that never completes may spin for ever: stop once every party's batch has returned)
